@@ -118,7 +118,7 @@ impl $t {
     pub fn min(self, o: $t) -> (r: $t) ensures r@ == (if self@ <= o@ { self@ } else { o@ }), r == self || r == o { unimplemented!() }
 }
 } )* } }
-cmp_impls!(Uint64, Uint128, Uint256, Uint512, Decimal, Decimal256);
+cmp_impls!(Uint64, Uint128, Uint256, Uint512, Decimal, Decimal256, Timestamp);
 
 // checked integer ops shared by the four Uint types; $max is the spec-level maximum
 macro_rules! uint_ops { ($t:ty, $max:expr, $zero:expr, $one:expr) => { verus! {
@@ -343,6 +343,7 @@ verus! {
 
 // ---------------------------------------------------------------- Decimal (128-bit atomics)
 impl Decimal {
+    pub const DECIMAL_PLACES: u32 = 18;
     #[verifier::external_body]
     pub fn zero() -> (r: Decimal) ensures r@ == 0 { unimplemented!() }
     #[verifier::external_body]
